@@ -2,7 +2,7 @@
 indexes consistent (C03, C04, C05, C06, C12, C16 primitives)."""
 import z3
 from pyvc.contracts import Contract
-from pyvc.core import SV, Val, VNone, VRef, VStr, is_VNone, is_VRef, ref, fresh, Int, SetSort
+from pyvc.core import SV, Val, VNone, VRef, VStr, is_VNone, is_VRef, ref, fresh, Int, SetSort, EmptySet
 from specs import forest, cache as K
 from specs.wf import WF, attach_ok, focus as wf_focus
 
@@ -99,6 +99,11 @@ class OwningSetOp(Contract):
             out["other_collections"] = z3.ForAll([w2], z3.Implies(
                 w2 != w, z3.Select(c1.arr("SetWrapper._data"), w2) == z3.Select(c0.arr("SetWrapper._data"), w2)))
         out["other_parents"] = z3.ForAll([n], z3.Implies(n != v, c1.get(self.parent_field, n) == c0.get(self.parent_field, n)))
+        from pyvc.core import Card
+        if self.op == "add":
+            out["card"] = Card(d1) == Card(d0) + z3.If(z3.Select(d0, VRef(v)), 0, 1)
+        else:
+            out["card"] = Card(d1) == Card(d0) - z3.If(z3.Select(d0, VRef(v)), 1, 0)
         # exported for callers (setters, constructors): how attachment changed
         lem = self.lemmas(c0, c1, a, res)
         for k in ("subtree_shape_unchanged", "ir_of_unchanged_outside", "ir_of_subtree"):
@@ -405,3 +410,171 @@ def register(reg):
     reg.add(ParentSetter("section.py", "Section", "module", "Module", "_module", "sections"))
     reg.add(ParentSetter("symbol.py", "Symbol", "module", "Module", "_module", "symbols"))
     reg.add(ParentSetter("block.py", "ProxyBlock", "module", "Module", "_module", "proxies"))
+
+
+# ------------------------------------------------------------------------------------------------ pop / clear
+_SETS = {
+    "Section._ByteIntervalSet": ("section.py", "Section", "ByteInterval", "_section", "byte_intervals", None),
+    "ByteInterval._BlockSet": ("byteinterval.py", "ByteInterval", "ByteBlock", "_byte_interval", "blocks", None),
+    "Module._NodeSet/sections": ("module.py", "Module", "Section", "_module", "sections", "sections"),
+    "Module._NodeSet/symbols": ("module.py", "Module", "Symbol", "_module", "symbols", "symbols"),
+    "Module._NodeSet/proxies": ("module.py", "Module", "ProxyBlock", "_module", "proxies", "proxies"),
+}
+
+
+def _wrapper_param(wrapper, elem):
+    def mk(eng, st, name):
+        return SV("ref", fresh(name, Int), cls=wrapper, x=elem)
+    return mk
+
+
+def _mk_op(key, op):
+    file, owner_cls, child_cls, pf, cf, field = _SETS[key]
+    wrapper = key.split("/")[0]
+    if field:
+        return NodeSetOp(field, child_cls, op)
+    return OwningSetOp(file, wrapper, owner_cls, child_cls, pf, cf, op)
+
+
+class SetPop(Contract):
+    """<owning set>.pop(): the method instances of the class actually run (util.SetWrapper.pop unless overridden):
+    KeyError on an empty set (nothing changes), otherwise removes and returns some member, exactly as discard."""
+    props = PROPS
+
+    def __init__(self, key):
+        self.key = key
+        self.wrapper = key.split("/")[0]
+        self.inner = _mk_op(key, "discard")
+        self.target = "mro:%s.pop" % self.wrapper
+        self.variant = key
+        self.params = {"self": _wrapper_param(self.wrapper, _SETS[key][2])}
+        self.modifies = self.inner.modifies
+        self.result = "ref:" + _SETS[key][2]
+        super().__init__()
+
+    def selects(self, self_cls, args, kwargs=None):
+        if self_cls != self.wrapper:
+            return False
+        x = args[0].x if args else None
+        want = _SETS[self.key][2]
+        return x is None or x == want or _SETS[self.key][5] is None
+
+    def region_invariant(self, c):
+        return forest.inv_region(c)
+
+    def focus(self, clause):
+        return wf_focus(clause)
+
+    def _args(self, a, res=None):
+        from pyvc.contracts import Args
+        return Args({"self": a.self, "v": res})
+
+    def pre(self, c, a):
+        out = self.inner.pre(c, self._args(a, SV("ref", z3.IntVal(0))))
+        out.pop("is_child", None)
+        return out
+
+    def raises(self, c0, a):
+        d0 = z3.Select(c0.arr("SetWrapper._data"), a.self.t)
+        return {"KeyError": d0 == EmptySet}
+
+    def on_raise(self, c0, c1, a, exc):
+        return {"unchanged(%s)" % k: c1.arr(k) == c0.arr(k) for k in ("SetWrapper._data", _SETS[self.key][3])}
+
+    def post(self, c0, c1, a, res):
+        d0 = z3.Select(c0.arr("SetWrapper._data"), a.self.t)
+        out = self.inner.post(c0, c1, self._args(a, res), None)
+        out["returned_a_member"] = z3.Select(d0, VRef(res.t))
+        return out
+
+    def lemmas(self, c0, c1, a, res):
+        return self.inner.lemmas(c0, c1, self._args(a, res), None)
+
+    def before_call(self, callee, c, callee_args):
+        return {}
+
+
+class SetClear(Contract):
+    """<owning set>.clear(): every former member is detached (as by discard); the set is empty afterwards."""
+    props = PROPS
+
+    def __init__(self, key):
+        self.key = key
+        self.wrapper = key.split("/")[0]
+        self.inner = _mk_op(key, "discard")
+        self.target = "mro:%s.clear" % self.wrapper
+        self.variant = key
+        self.params = {"self": _wrapper_param(self.wrapper, _SETS[key][2])}
+        self.modifies = self.inner.modifies
+        super().__init__()
+
+    def selects(self, self_cls, args, kwargs=None):
+        if self_cls != self.wrapper:
+            return False
+        x = args[0].x if args else None
+        return x is None or x == _SETS[self.key][2] or _SETS[self.key][5] is None
+
+    def region_invariant(self, c):
+        return forest.inv_region(c)
+
+    def focus(self, clause):
+        return wf_focus(clause)
+
+    def pre(self, c, a):
+        from pyvc.contracts import Args
+        out = self.inner.pre(c, Args({"self": a.self, "v": SV("ref", z3.IntVal(0))}))
+        out.pop("is_child", None)
+        return out
+
+    @staticmethod
+    def effect(key, c0, c1, a):
+        pf = _SETS[key][3]
+        w = a.self.t
+        d0 = z3.Select(c0.arr("SetWrapper._data"), w)
+        d1 = z3.Select(c1.arr("SetWrapper._data"), w)
+        n = fresh("n", Int)
+        w2 = fresh("w", Int)
+        x = fresh("x", Val)
+        removed = lambda t: z3.And(z3.Select(d0, t), z3.Not(z3.Select(d1, t)))
+        return {
+            "shrinks": z3.ForAll([x], z3.Implies(z3.Select(d1, x), z3.Select(d0, x))),
+            "parents": z3.ForAll([n], c1.get(pf, n) == z3.If(removed(VRef(n)), VNone, c0.get(pf, n))),
+            "other_collections": z3.ForAll([w2], z3.Implies(w2 != w, z3.Select(c1.arr("SetWrapper._data"), w2)
+                                                            == z3.Select(c0.arr("SetWrapper._data"), w2))),
+        }
+
+    def post(self, c0, c1, a, res):
+        out = dict(WF(c1))
+        out.update(self.effect(self.key, c0, c1, a))
+        out["empty"] = z3.Select(c1.arr("SetWrapper._data"), a.self.t) == EmptySet
+        return out
+
+
+def _clear_inv(key):
+    def inv(L):
+        out = dict(WF(L.c))
+        out.update(SetClear.effect(key, L.c0, L.c, L.a))
+        return out
+    return inv
+
+
+def _clear_variant(L):
+    from pyvc.core import Card
+    d = z3.Select(L.c.arr("SetWrapper._data"), L.a.self.t)
+    L.eng.cur_facts.append(Card(d) >= 0)          # finite-set cardinality axiom, instantiated
+    return Card(d)
+
+
+_register_prev5 = register
+
+
+def register(reg):
+    _register_prev5(reg)
+    from pyvc.contracts import LoopSpec
+    from pyvc.core import Card
+    for key in _SETS:
+        reg.add(SetPop(key))
+        c = reg.add(SetClear(key))
+        ls = LoopSpec(_clear_inv(key), modifies=c.modifies, focus=wf_focus)
+        ls.variant = _clear_variant
+        reg.add_loop(c.target + "[" + key + "]", 0, ls)
